@@ -94,7 +94,7 @@ impl Monitor for C20 {
         "C20"
     }
     fn rule(&self) -> String {
-        "cases = seeded universes (hints All/Some/None, favored candidates that are not rank-first, random ranks, missing packages) and a random sequence of 40 SolverCache queries (candidates / matching / non-matching / sorted single / sorted union / dependencies, repeats frequent) on a bare SolverCache::new(provider); after every query the answer is compared with the reference (partition by filter_candidates, rank order with favored rotated to the front and the rest in unchanged relative order, union = concatenation in member order), are_dependencies_available_for is compared with (fetched or (package fetched and hinted)) for EVERY solvable, and at the end every slice reference returned earlier is re-read and the provider log is checked for a repeated get_candidates / get_dependencies. Second part: the same universe is solved with a provider whose sort_candidates queries the cache RE-ENTRANTLY (candidates of the package being sorted, dependencies of the solvables being sorted, matching / non-matching of other version sets), answers judged the same way and the solve result compared with a plain solve. distinct = content hash incl. queries; non-trivial = case with a favored candidate that is not rank-first among queried packages and >= 1 repeated query".into()
+        "cases = seeded universes (hints All/Some/None, favored candidates that are not rank-first, random ranks, missing packages) and a random sequence of 40 SolverCache queries (candidates / matching / non-matching / sorted single / sorted union / dependencies, repeats frequent) on a bare SolverCache::new(provider); after every query the answer is compared with the reference (partition by filter_candidates, rank order with favored rotated to the front and the rest in unchanged relative order, union = concatenation in member order), are_dependencies_available_for is compared with (fetched or (package fetched and hinted)) for EVERY solvable, and at the end every slice reference returned earlier is re-read and the provider log is checked for a repeated get_candidates / get_dependencies. Second part: the same universe is solved with a provider whose sort_candidates queries the cache RE-ENTRANTLY (candidates of the package being sorted, dependencies of the solvables being sorted, matching / non-matching of other version sets), answers judged the same way and the solve result compared with a plain solve; the re-entrant solve is run synchronously AND under the manual executor with every callback suspending, where re-entrant requests race with the encoder's own (no provider call may be repeated). distinct = content hash incl. queries; non-trivial = case with a favored candidate that is not rank-first among queried packages and >= 1 repeated query".into()
     }
     fn cases(&self, tier: Tier) -> u64 {
         tier.pick(160_000, 3_200_000)
@@ -232,20 +232,21 @@ impl Monitor for C20 {
                         }
                     }
                 }
-                // availability for every solvable
-                for s in 0..u.solvs.len() as u32 {
-                    let n = u.solvs[s as usize].name;
-                    if n as usize >= u.pkgs.len() {
-                        continue;
-                    }
+                // availability for every solvable: hinted by ANY fetched package (a hint list may name
+                // solvables of other packages) or already fetched
+                let mut hinted_set: BTreeSet<u32> = BTreeSet::new();
+                for &n in &fetched_pk {
                     let pk = &u.pkgs[n as usize];
-                    let hinted = fetched_pk.contains(&n)
-                        && pk.candidates.is_some()
-                        && match &pk.hint {
-                            Hint::None => false,
-                            Hint::All => pk.candidates.as_ref().map_or(false, |c| c.contains(&s)),
-                            Hint::Some(v) => v.contains(&s),
-                        };
+                    if let Some(c) = &pk.candidates {
+                        match &pk.hint {
+                            Hint::None => {}
+                            Hint::All => hinted_set.extend(c.iter().copied()),
+                            Hint::Some(v) => hinted_set.extend(v.iter().copied()),
+                        }
+                    }
+                }
+                for s in 0..u.solvs.len() as u32 {
+                    let hinted = hinted_set.contains(&s);
                     let exp = fetched.contains(&s) || hinted;
                     if cache.are_dependencies_available_for(SolvableId(s)) != exp {
                         bad("are_dependencies_available_for differs from (hinted or already fetched)", format!("query {qi}: s{s} expected {exp}"));
@@ -313,6 +314,27 @@ impl Monitor for C20 {
         }
         for d in super::c10::duplicate_calls(&sess.log()) {
             ctx.violation("provider asked twice (re-entrant use)", d);
+        }
+        // the same under the manual executor: re-entrant queries race with the encoder's own requests
+        {
+            let mut rr = crate::gener::Rng::new(h);
+            let opts = SolveOpts { mode: Mode::Async(random_policy(&mut rr)), pause_mask: PAUSE_ALL, ..SolveOpts::default() };
+            let mut sess = crate::run::Session::new(u.clone(), &opts);
+            sess.prov().reentrant_sort.set(true);
+            let out = sess.solve(&c.p);
+            ctx.rep.evaluations += 1;
+            if let Outcome::Panic(pi) = &out {
+                ctx.violation(format!("panic with re-entrant cache queries (async): {}", pi.signature()), String::new());
+            }
+            if matches!(out, Outcome::Deadlock) {
+                ctx.violation("deadlock with re-entrant cache queries (async)", String::new());
+            }
+            for o in sess.prov().reentrant_obs.borrow().iter() {
+                ctx.violation("re-entrant cache query gave a wrong answer (async)", o.clone());
+            }
+            for d in super::c10::duplicate_calls(&sess.log()) {
+                ctx.violation("provider asked twice (re-entrant use, async)", d);
+            }
         }
         ctx.rep.sample(|| json!({"universe": universe_text(&u), "queries": c.queries.iter().take(10).map(|q| format!("{:?}", q)).collect::<Vec<_>>()}));
     }
